@@ -44,8 +44,18 @@ func (tracker *defaultImportTracker) add(path string) {
 
 	parts := strings.Split(path, "/")
 
-	for i := range len(parts) {
-		localName := golangTrackerLocalName(parts, i+1)
+	// when all candidates built from path segments are taken or invalid,
+	// fall back to numbered names, so that a name is always committed
+	fallback := golangTrackerLocalName(parts, 1)
+	if !token.IsIdentifier(fallback + "2") {
+		fallback = "pkg"
+	}
+
+	for i := 0; ; i++ {
+		localName := fallback + strconv.Itoa(i-len(parts)+2)
+		if i < len(parts) {
+			localName = golangTrackerLocalName(parts, i+1)
+		}
 
 		// keyword or name starts with digit can't be import name
 		if !token.IsIdentifier(localName) {
